@@ -659,7 +659,7 @@ func H_C09_returnSequences() {
 		}
 	}
 	set := hxSet(nil,
-		"/main.jet", `[{{ exec("/e.jet") }}]`,
+		"/main.jet", `[{{ exec("/e.jet") }}]<{{ . }}>`,
 		"/e.jet", src,
 		"/ret.jet", `{{ return . }}`,
 	)
@@ -670,12 +670,12 @@ func H_C09_returnSequences() {
 	vars.Set("yes", true)
 	vars.Set("no", false)
 	vars.SetFunc("fail", hxFail)
-	out, err := hxExec(set, "/main.jet", vars, nil)
+	out, err := hxExec(set, "/main.jet", vars, "D")
 	vfReach("returned")
 	vfAssert(err == nil, "renders")
 	vfNote(src)
 	vfNote(out)
-	vfAssert(out == "["+want+"]", "exec evaluates to the value of the last return executed")
+	vfAssert(out == "["+want+"]<D>", "exec evaluates to the value of the last return executed; '.' of the caller is untouched")
 }
 
 // H_C09_nestedNilReturn: a return of nil executed inside an if, try, range or included
